@@ -30,6 +30,10 @@ func newReferenceResolver(root cue.Value, config referenceResolverConfig) *refer
 	resolver.librariesMap = resolver.buildLibrariesMap(config.Libraries)
 
 	// map the package originally declared in the CUE file to the one configured by the user
+	// (a package spread over several files has no single source file: the name comes from the instance)
+	if instance := root.BuildInstance(); instance != nil && instance.PkgName != "" {
+		resolver.importsAliasMap[instance.PkgName] = config.SchemaPackage
+	}
 	if fileAst, ok := root.Source().(*cueast.File); ok {
 		for _, decl := range fileAst.Decls {
 			if pkgDecl, ok := decl.(*cueast.Package); ok {
